@@ -189,7 +189,39 @@ Theorem C19_state_file_steps : forall (c : ocfg) (s0 : Z) (n : nat),
 Proof. exact state_file_steps. Qed.
 Print Assumptions C19_state_file_steps.
 
+(* ---- label text ------------------------------------------------------------------------------------ *)
+(* FULL STATEMENT (false of the code): the token a reader sees for a column is prefix ++ name, so that different
+   columns have different labels.  True for names that fit in the column width: *)
+Theorem C19_label_identifies_column_partial : forall prefix n1 n2 width,
+  no_blank prefix -> no_blank n1 -> no_blank n2 ->
+  (length prefix + length n1 <= width)%nat -> (length prefix + length n2 <= width)%nat ->
+  label_token prefix n1 width = prefix ++ n1 /\
+  (label_token prefix n1 width = label_token prefix n2 width -> n1 = n2).
+Proof.
+  intros prefix n1 n2 width Hp H1 H2 L1 L2. split.
+  - apply label_token_short; assumption.
+  - apply label_token_injective_short; assumption.
+Qed.
+Print Assumptions C19_label_identifies_column_partial.
+
+(* a longer name is cut to the width (wrap_string) ... *)
+Theorem C19_label_cut_when_long : forall prefix name width,
+  no_blank prefix -> no_blank name -> (width < length prefix + length name)%nat -> (length prefix <= width)%nat ->
+  label_token prefix name width = prefix ++ firstn (width - length prefix) name.
+Proof. exact label_token_long. Qed.
+Print Assumptions C19_label_cut_when_long.
+
+(* ... so two variables whose names share their first 21 characters are announced by the same label, and so are the
+   velocity column of "a" and the value column of a variable named "v_a" (recorded in known_findings.txt) *)
+Theorem C19_label_identifies_column_refuted :
+  (exists n1 n2, n1 <> n2 /\ no_blank n1 /\ no_blank n2 /\ label_token [] n1 21 = label_token [] n2 21) /\
+  label_token [118; 95]%nat [97]%nat 21 = label_token [] [118; 95; 97]%nat 21.
+Proof. exact label_collisions. Qed.
+Print Assumptions C19_label_identifies_column_refuted.
+
 (* ---- the premises are satisfiable; the specification functions compute what they should ---------- *)
+Example C19_ex_label : no_blank [118; 95]%nat /\ label_token [118; 95]%nat [97; 98]%nat 21 = [118; 95; 97; 98]%nat.
+Proof. split; [repeat constructor; discriminate|vm_compute; reflexivity]. Qed.
 Example C19_ex_out :
   out_run (mkOC 2 0 [(0, 3)])%Z [OCalc 0; OCalc 1; OCalc 2; OCalc 3; OEnd 3]%Z =
     [(2, FState); (2, FColvar); (3, FBias 0); (3, FState); (3, FColvar)]%Z.
